@@ -89,9 +89,9 @@ func H_C10_key_ii() {
 	keyAgree(a, b, "int")
 }
 
-//verif:harness props=C10 tier=thorough bounds="index keys of arrays/objects with <=1 element (nil,float64,string<=1,bool) and floats"
+//verif:harness props=C10 tier=thorough bounds="index keys of arrays/objects with <=2 elements (nil, float from {-1.5,0,2.5}, string<=1 symbolic byte, symbolic bool) and such floats / nil at top level"
 func H_C10_key_containers() {
-	o := ref.Opts{Kinds: ref.KArray | ref.KObject | ref.KFloat | ref.KNil, ElemKinds: ref.KNil | ref.KFloat | ref.KString | ref.KBool, MaxStr: 1, MaxElems: 1}
+	o := ref.Opts{Kinds: ref.KArray | ref.KObject | ref.KFloat | ref.KNil, ElemKinds: ref.KNil | ref.KFloat | ref.KString | ref.KBool, MaxStr: 1, MaxElems: 2, FloatNormal: true, ElemConc: true}
 	keyAgree(ref.Value("a", o), ref.Value("b", o), "container")
 }
 
